@@ -40,10 +40,13 @@ def gen(S, tier):
         ops = []
         for _ in range(w.randint(2, 14)):
             if w.chance(0.6):
-                ops.append(["reg", w.randrange(2), w.pick(PRIOS), w.weighted([("pass", 5), ("stop", 1)])])
+                # "act": the listener uses what its event type offers besides stopping - a pre-handle
+                # listener takes the command over (handled + status code), a pre-resolve listener
+                # resolves to another command; neither asks for the propagation to stop
+                ops.append(["reg", w.randrange(2), w.pick(PRIOS), w.weighted([("pass", 5), ("stop", 1), ("act", 1.5)])])
             else:
-                ops.append(["run"])
-        ops.append(["run"])
+                ops.append(["run", w.weighted([("go", 5), ("go --version", 2), ("go --help", 1)])])
+        ops.append(["run", w.weighted([("go", 3), ("go --version", 2)])])
         return {"class": "app", "ops": ops}
     n = w.randint(1, 40)
     p_fault = w.pick([0.0, 0.05, 0.15, 0.3])
@@ -122,14 +125,22 @@ def _execute_app(sc):
 
     class H(object):
         def handle(self, args, io, command):
-            ran.append("handler")
+            ran.append("go")
+            return 0
+
+    class H2(object):
+        def handle(self, args, io, command):
+            ran.append("alt")
             return 0
 
     config.create_command("go").set_description("go").set_handler(H())
+    config.create_command("alt").set_description("alt").set_handler(H2())
     app = ConsoleApplication(config)
     names = [PRE_RESOLVE, PRE_HANDLE]
-    # the default configuration registered one listener per event itself (priority 0, first)
-    regs = [{"event": 0, "prio": 0, "seq": 0, "lid": -1, "stop": False}, {"event": 1, "prio": 0, "seq": 0, "lid": -2, "stop": False}]
+    # the default configuration registered one listener per event itself (priority 0, first):
+    # -1 resolves the help command and stops when the line asks for help, -2 takes the command over
+    # when the line asks for the version
+    regs = [{"event": 0, "prio": 0, "seq": 0, "lid": -1, "b": "default"}, {"event": 1, "prio": 0, "seq": 0, "lid": -2, "b": "default"}]
     seq = [0]
     calls = []
     runs = 0
@@ -144,37 +155,60 @@ def _execute_app(sc):
                 calls.append((_lid, event_name))
                 if _b == "stop":
                     event.stop_propagation()
+                elif _b == "act" and _ev == 1:
+                    event.handled(True)
+                    event.set_status_code(10 + _lid)
+                elif _b == "act":
+                    from clikit.api.resolver import ResolvedCommand
+                    c = event.application.get_command("alt")
+                    event.set_resolved_command(ResolvedCommand(c, c.parse(event.raw_args, True)))
 
             config.add_event_listener(names[ev], listener, prio)
-            regs.append({"event": ev, "prio": prio, "seq": seq[0], "lid": lid, "stop": b == "stop"})
+            regs.append({"event": ev, "prio": prio, "seq": seq[0], "lid": lid, "b": b})
             if runs:
                 res.probe("register_after_dispatch")
             log.append(("reg", ev, prio, b))
         elif op[0] == "run":
+            line = op[1] if len(op) > 1 else "go"
             del calls[:]
             del ran[:]
             elog = EventLog()
             try:
-                status = app.run(ArgvArgs(["prog", "go"]), SimInputStream(elog, []), SimOutputStream("o", elog, ansi=False), SimOutputStream("e", elog, ansi=False))
+                status = app.run(ArgvArgs(["prog"] + line.split()), SimInputStream(elog, []), SimOutputStream("o", elog, ansi=False), SimOutputStream("e", elog, ansi=False))
             except BaseException as e:
                 res.violate("op_raised", "run", "%s: %s" % (type(e).__name__, e))
                 break
             runs += 1
             want = []
+            target, handled, code = "go", False, 0
             for ev in (0, 1):
                 for r in sorted((r for r in regs if r["event"] == ev), key=lambda r: (-r["prio"], r["seq"])):
                     if r["lid"] >= 0:
                         want.append((r["lid"], names[ev]))
-                    if r["stop"]:
+                    stops = r["b"] == "stop"
+                    if r["b"] == "act" and ev == 0:
+                        target = "alt"
+                    elif r["b"] == "act":
+                        handled, code = True, 10 + r["lid"]
+                        res.probe("listener_took_over")
+                    elif r["b"] == "default" and ev == 0 and "--help" in line:
+                        target, stops = "help", True
+                    elif r["b"] == "default" and ev == 1 and "--version" in line:
+                        handled = True
+                        res.probe("listener_took_over")
+                    if stops:
                         if any(x["event"] == ev for x in regs if (-x["prio"], x["seq"]) > (-r["prio"], r["seq"])):
                             res.probe("stop_in_middle")
                         break
-            log.append(("run", status, list(calls)))
+            log.append(("run", line, status, list(calls), list(ran)))
             if calls != want:
-                res.violate("dispatch_sequence", "application_run", "run called listeners %r, expected %r" % (calls, want))
-            if ran != ["handler"] or status != 0:
-                res.violate("dispatch_sequence", "handler", "handler calls %r status %r" % (ran, status))
-    res.states.add(tuple(sorted((r["event"], r["prio"], r["stop"]) for r in regs)))
+                res.violate("dispatch_sequence", "application_run", "run %r called listeners %r, expected %r" % (line, calls, want))
+            want_ran = [] if handled or target == "help" else [target]
+            want_status = code if handled else 0
+            if ran != want_ran or status != want_status:
+                res.violate("dispatch_sequence", "handler", "run %r: handler calls %r status %r, expected %r status %r (listeners called: %r)"
+                            % (line, ran, status, want_ran, want_status, calls))
+    res.states.add(tuple(sorted((r["event"], r["prio"], r["b"]) for r in regs)))
     res.nontrivial = runs >= 2 and len(regs) >= 4
     return res
 
